@@ -24,6 +24,17 @@ def Elem.attrsOf : Elem → List Attr
   | .typeParam t => t.attrs
   | .attrs as => as
 
+def Elem.toks : Elem → String
+  | .field f => f.toks
+  | .variant v => v.toks
+  | .typeParam t => t.toks
+  | _ => ""
+
+def Elem.span? : Elem → Option Span
+  | .field f => some f.span
+  | .variant v => some v.span
+  | _ => none
+
 def optToks : Option String → Val
   | some s => .some (.toks s)
   | none => .none
